@@ -7,64 +7,64 @@ Proof. exact Proofs.params_ok_now. Qed.
 Print Assumptions params_ok_now.
 
 (* one read_message call never reads outside the unread bytes of the buffer *)
-Theorem read_message_buffer_safe : forall (r : role) (l : list N), one_msg r l <> HFault.
+Theorem read_message_buffer_safe : forall (pol : policy) (r : role) (l : list N), one_msg pol r l <> HFault.
 Proof. exact ProofsA.one_msg_no_fault. Qed.
 Print Assumptions read_message_buffer_safe.
 
 (* a decision of read_message other than "need more" does not depend on the bytes that follow *)
-Theorem read_message_monotone : forall (r : role) (l x : list N),
-  one_msg r l <> NeedMore -> one_msg r (l ++ x) = one_msg r l.
+Theorem read_message_monotone : forall (pol : policy) (r : role) (l x : list N),
+  one_msg pol r l <> NeedMore -> one_msg pol r (l ++ x) = one_msg pol r l.
 Proof. exact ProofsA.one_msg_mono. Qed.
 Print Assumptions read_message_monotone.
 
 (* a header is 4..17 bytes and lies inside the unread bytes: every loop iteration consumes input *)
-Theorem read_message_consumes : forall (r : role) (l : list N) (m : msg) (n : nat),
-  one_msg r l = Got m n -> (4 <= n <= length l)%nat /\ (n <= 17)%nat.
+Theorem read_message_consumes : forall (pol : policy) (r : role) (l : list N) (m : msg) (n : nat),
+  one_msg pol r l = Got m n -> (4 <= n <= length l)%nat /\ (n <= 17)%nat.
 Proof. exact ProofsA.one_msg_got_len. Qed.
 Print Assumptions read_message_consumes.
 
 (* the fuel of the decoder is irrelevant once it exceeds the measure: no spin *)
-Theorem decoder_no_spin : forall (HS : Type) (handle : HS -> msg -> HS * verdict) (rl : role)
+Theorem decoder_no_spin : forall (HS : Type) (handle : HS -> msg -> HS * verdict) (rl : role) (pol : policy)
   (f1 f2 : nat) (h : HS) (m : rmode) (l : list N),
-  (mu m l < f1)%nat -> (mu m l < f2)%nat -> feed HS handle rl f1 h m l = feed HS handle rl f2 h m l.
+  (mu m l < f1)%nat -> (mu m l < f2)%nat -> feed HS handle rl pol f1 h m l = feed HS handle rl pol f2 h m l.
 Proof. exact ProofsB.feed_fuel. Qed.
 Print Assumptions decoder_no_spin.
 
-Theorem decode_total : forall (HS : Type) (handle : HS -> msg -> HS * verdict) (rl : role) (h : HS) (s : list N),
-  exists h' m' b' es, decode HS handle rl h s = PRes h' m' b' es.
+Theorem decode_total : forall (HS : Type) (handle : HS -> msg -> HS * verdict) (rl : role) (pol : policy) (h : HS) (s : list N),
+  exists h' m' b' es, decode HS handle rl pol h s = PRes h' m' b' es.
 Proof. exact ProofsC.decode_total. Qed.
 Print Assumptions decode_total.
 
-Theorem decoder_compositional : forall (HS : Type) (handle : HS -> msg -> HS * verdict) (rl : role)
+Theorem decoder_compositional : forall (HS : Type) (handle : HS -> msg -> HS * verdict) (rl : role) (pol : policy)
   (h : HS) (m : rmode) (a b : list N),
-  feedx HS handle rl h m (a ++ b) = pbind HS handle rl (feedx HS handle rl h m a) b.
+  feedx HS handle rl pol h m (a ++ b) = pbind HS handle rl pol (feedx HS handle rl pol h m a) b.
 Proof. exact ProofsB.feedx_app'. Qed.
 Print Assumptions decoder_compositional.
 
-Theorem decoder_segmentation_independent : forall (HS : Type) (handle : HS -> msg -> HS * verdict) (rl : role)
+Theorem decoder_segmentation_independent : forall (HS : Type) (handle : HS -> msg -> HS * verdict) (rl : role) (pol : policy)
   (h : HS) (chunks : list (list N)),
-  feed_chunks HS handle rl h RIdle [] chunks = decode HS handle rl h (concat chunks).
+  feed_chunks HS handle rl pol h RIdle [] chunks = decode HS handle rl pol h (concat chunks).
 Proof. exact ProofsC.decoder_segmentation_independent. Qed.
 Print Assumptions decoder_segmentation_independent.
 
-Theorem decoder_segmentation_independent_from : forall (HS : Type) (handle : HS -> msg -> HS * verdict) (rl : role)
+Theorem decoder_segmentation_independent_from : forall (HS : Type) (handle : HS -> msg -> HS * verdict) (rl : role) (pol : policy)
   (h : HS) (m : rmode) (buf : list N) (chunks1 chunks2 : list (list N)),
-  feedx HS handle rl h m buf = PRes h m buf [] ->
+  feedx HS handle rl pol h m buf = PRes h m buf [] ->
   concat chunks1 = concat chunks2 ->
-  feed_chunks HS handle rl h m buf chunks1 = feed_chunks HS handle rl h m buf chunks2.
+  feed_chunks HS handle rl pol h m buf chunks1 = feed_chunks HS handle rl pol h m buf chunks2.
 Proof. exact ProofsC.decoder_segmentation_independent_from. Qed.
 Print Assumptions decoder_segmentation_independent_from.
 
-Theorem decode_rest_incomplete : forall (HS : Type) (handle : HS -> msg -> HS * verdict) (rl : role)
+Theorem decode_rest_incomplete : forall (HS : Type) (handle : HS -> msg -> HS * verdict) (rl : role) (pol : policy)
   (h : HS) (s : list N) (h' : HS) (b' : list N) (es : list effect),
-  decode HS handle rl h s = PRes h' RIdle b' es -> one_msg rl b' = NeedMore /\ (length b' < 17)%nat.
+  decode HS handle rl pol h s = PRes h' RIdle b' es -> one_msg pol rl b' = NeedMore /\ (length b' < 17)%nat.
 Proof. exact ProofsC.decode_rest_incomplete_short. Qed.
 Print Assumptions decode_rest_incomplete.
 
-Theorem no_fatal_from_input : forall (HS : Type) (handle : HS -> msg -> HS * verdict) (rl : role),
+Theorem no_fatal_from_input : forall (HS : Type) (handle : HS -> msg -> HS * verdict) (rl : role) (pol : policy),
   handler_never_fatal HS handle ->
   forall (h : HS) (s : list N) (h' : HS) (m' : rmode) (b' : list N) (es : list effect),
-  decode HS handle rl h s = PRes h' m' b' es -> ~ In EFatal es.
+  decode HS handle rl pol h s = PRes h' m' b' es -> ~ In EFatal es.
 Proof. exact ProofsC.no_fatal_from_input. Qed.
 Print Assumptions no_fatal_from_input.
 
@@ -75,22 +75,22 @@ Print Assumptions no_fatal_from_input.
    handler state, read mode, unread rest and effect sequence are those of decoding the
    concatenated stream at once (segmentation_independent). *)
 Theorem machine_segmentation_independent :
-  forall (HS : Type) (handle : HS -> msg -> HS * verdict) (rl : role) (budget : nat -> nat) (short : nat -> bool)
+  forall (HS : Type) (handle : HS -> msg -> HS * verdict) (rl : role) (pol : policy) (budget : nat -> nat) (short : nat -> bool)
          (h : HS) (pre : list N) (segs : list (list N)),
   (length pre < bufsz)%nat ->
   exists s' es,
-    run HS handle rl budget short h pre segs = MRet s' [] es /\
-    decode HS handle rl h (pre ++ concat segs) = PRes (m_h s') (m_mode s') (m_buf s') es.
+    run HS handle rl pol budget short h pre segs = MRet s' [] es /\
+    decode HS handle rl pol h (pre ++ concat segs) = PRes (m_h s') (m_mode s') (m_buf s') es.
 Proof. exact ProofsD.machine_segmentation_independent. Qed.
 Print Assumptions machine_segmentation_independent.
 
 (* one event_read from a settled state: ends normally, never reads more than the socket holds,
    consumes at least one byte when the socket is non-empty and the connection is open *)
 Theorem event_read_total :
-  forall (HS : Type) (handle : HS -> msg -> HS * verdict) (rl : role) (budget : nat -> nat) (short : nat -> bool)
+  forall (HS : Type) (handle : HS -> msg -> HS * verdict) (rl : role) (pol : policy) (budget : nat -> nat) (short : nat -> bool)
          (fuel : nat) (s : mst HS) (avail : list N),
-  good HS handle rl s -> (length avail < fuel)%nat ->
-  exists s' a' es, ev HS handle rl budget short fuel s avail = MRet s' a' es /\ (length a' <= length avail)%nat /\
+  good HS handle rl pol s -> (length avail < fuel)%nat ->
+  exists s' a' es, ev HS handle rl pol budget short fuel s avail = MRet s' a' es /\ (length a' <= length avail)%nat /\
                    (avail <> [] -> m_mode s <> RClosed -> (length a' < length avail)%nat).
 Proof. exact ProofsD.ev_total. Qed.
 Print Assumptions event_read_total.
@@ -99,13 +99,13 @@ Print Assumptions event_read_total.
    on an empty socket the connection is in the state decode pre denotes -- every complete message
    in the handed-over bytes has been dispatched, what stays buffered is an incomplete message *)
 Theorem handover_dispatches_complete :
-  forall (HS : Type) (handle : HS -> msg -> HS * verdict) (rl : role) (budget : nat -> nat) (short : nat -> bool)
+  forall (HS : Type) (handle : HS -> msg -> HS * verdict) (rl : role) (pol : policy) (budget : nat -> nat) (short : nat -> bool)
          (h : HS) (pre : list N),
   (length pre < bufsz)%nat ->
   exists s0 es0,
-    handover HS handle rl budget short h pre [] = MRet s0 [] es0 /\
-    decode HS handle rl h pre = PRes (m_h s0) (m_mode s0) (m_buf s0) es0 /\
-    good HS handle rl s0.
+    handover HS handle rl pol budget short h pre [] = MRet s0 [] es0 /\
+    decode HS handle rl pol h pre = PRes (m_h s0) (m_mode s0) (m_buf s0) es0 /\
+    good HS handle rl pol s0.
 Proof. exact ProofsD.handover_dispatches_complete. Qed.
 Print Assumptions handover_dispatches_complete.
 
@@ -114,11 +114,13 @@ Print Assumptions handover_dispatches_complete.
    payload, 3 extension types, 32-bit fields), with a handler that does not close, the decoder
    reports exactly those messages, leaves nothing unread and ends in the IDLE state *)
 Theorem decode_spec :
-  forall (HS : Type) (handle : HS -> msg -> HS * verdict) (rl : role),
+  forall (HS : Type) (handle : HS -> msg -> HS * verdict) (rl : role) (pol : policy),
   (forall h m, snd (handle h m) = VCont) ->
+  (forall m, wf_wmsg rl m -> p_hdr pol (fst (whdr m)) (snd (whdr m)) = false) ->
+  (forall ty d, wf_wmsg rl (WExt ty d) -> p_ext pol ty (lenN d) = false) ->
   forall (ms : list wmsg) (h : HS),
   Forall (wf_wmsg rl) ms ->
-  decode HS handle rl h (encode_msgs ms) =
+  decode HS handle rl pol h (encode_msgs ms) =
   PRes (hfold HS handle h (concat (map denotes ms))) RIdle [] (map EMsg (concat (map denotes ms))).
 Proof. exact ProofsE.decode_spec. Qed.
 Print Assumptions decode_spec.
@@ -127,11 +129,11 @@ Print Assumptions decode_spec.
    corpus/C03/meta.case: a BITFIELD and what was buffered behind it stayed unparsed): the parse that
    stops at a BITFIELD header loses nothing ... *)
 Theorem metadata_parse_refines :
-  forall (HS : Type) (handle : HS -> msg -> HS * verdict) (rl : role) (budget : nat -> nat)
+  forall (HS : Type) (handle : HS -> msg -> HS * verdict) (rl : role) (pol : policy) (budget : nat -> nat)
          (f : nat) (h : HS) (m : rmode) (l : list N) (h1 : HS) (m1 : rmode) (b1 : list N) (es1 : list effect),
-  (mu m l < f)%nat -> feeds HS handle rl f h m l = PRes h1 m1 b1 es1 ->
-  (forall y, feedx HS handle rl h m (l ++ y) = papp HS es1 (feedx HS handle rl h1 m1 (b1 ++ y))) /\
-  ((exists lft, m1 = RPay KBits lft) \/ good HS handle rl (mk_mst h1 m1 b1 0)).
+  (mu m l < f)%nat -> feeds HS handle rl pol f h m l = PRes h1 m1 b1 es1 ->
+  (forall y, feedx HS handle rl pol h m (l ++ y) = papp HS es1 (feedx HS handle rl pol h1 m1 (b1 ++ y))) /\
+  ((exists lft, m1 = RPay KBits lft) \/ good HS handle rl pol (mk_mst h1 m1 b1 0)).
 Proof. exact ProofsF.feeds_refines. Qed.
 Print Assumptions metadata_parse_refines.
 
@@ -139,10 +141,10 @@ Print Assumptions metadata_parse_refines.
    handed-over prefix and list of segments: a run that ends normally emitted exactly the effects
    of decoding the whole stream and is in the state decode denotes *)
 Theorem meta_machine_refines_decode :
-  forall (HS : Type) (handle : HS -> msg -> HS * verdict) (rl : role) (budget : nat -> nat)
+  forall (HS : Type) (handle : HS -> msg -> HS * verdict) (rl : role) (pol : policy) (budget : nat -> nat)
          (h : HS) (pre : list N) (segs : list (list N)) (s' : mst HS) (avail' : list N) (es : list effect),
-  run_meta HS handle rl budget h pre segs = MRet s' avail' es ->
-  decode HS handle rl h (pre ++ concat segs) = PRes (m_h s') (m_mode s') (m_buf s') es.
+  run_meta HS handle rl pol budget h pre segs = MRet s' avail' es ->
+  decode HS handle rl pol h (pre ++ concat segs) = PRes (m_h s') (m_mode s') (m_buf s') es.
 Proof. exact ProofsF.meta_machine_refines_decode. Qed.
 Print Assumptions meta_machine_refines_decode.
 
@@ -151,13 +153,13 @@ Print Assumptions meta_machine_refines_decode.
    `decode` does; a pause only delays (unread bytes stay in the socket; none if reads are not
    paused at the end); a remote close adds exactly one effect, Close of that connection. *)
 Theorem machine_events :
-  forall (HS : Type) (handle : HS -> msg -> HS * verdict) (rl : role) (budget : nat -> nat) (short : nat -> bool)
+  forall (HS : Type) (handle : HS -> msg -> HS * verdict) (rl : role) (pol : policy) (budget : nat -> nat) (short : nat -> bool)
          (h : HS) (pre : list N) (evs : list event),
   (length pre < bufsz)%nat ->
   exists s' sock' es hd md bd ed consumed,
-    run_events HS handle rl budget short h pre evs = MRet s' sock' es /\
+    run_events HS handle rl pol budget short h pre evs = MRet s' sock' es /\
     ebytes evs = consumed ++ sock' /\
-    decode HS handle rl h (pre ++ consumed) = PRes hd md bd ed /\
+    decode HS handle rl pol h (pre ++ consumed) = PRes hd md bd ed /\
     (epaused false evs = false -> sock' = []) /\
     (if eeof evs
      then sock' = [] /\ m_mode s' = RClosed /\
@@ -182,7 +184,7 @@ Theorem no_fatal_real_machine : forall (c : cfg) (budget : nat -> nat) (short : 
   (pre : list N) (evs : list event),
   (length pre < bufsz)%nat ->
   exists s' sock' es,
-    run_events hst (hreal c) (c_role c) budget short h0 pre evs = MRet s' sock' es /\ ~ In EFatal es.
+    run_events hst (hreal c) (c_role c) (c_pol c) budget short h0 pre evs = MRet s' sock' es /\ ~ In EFatal es.
 Proof. exact ProofsG.no_fatal_real_machine. Qed.
 Print Assumptions no_fatal_real_machine.
 
@@ -190,12 +192,12 @@ Print Assumptions no_fatal_real_machine.
    run always ends normally -- no MFault (never writes past the 512-byte buffer), no MOut (the
    event_read loop terminates) -- and equals the decode of the whole stream *)
 Theorem meta_machine_segmentation_independent :
-  forall (HS : Type) (handle : HS -> msg -> HS * verdict) (rl : role) (budget : nat -> nat)
+  forall (HS : Type) (handle : HS -> msg -> HS * verdict) (rl : role) (pol : policy) (budget : nat -> nat)
          (h : HS) (pre : list N) (segs : list (list N)),
   (length pre <= bufcap)%nat ->
   exists s' es,
-    run_meta HS handle rl budget h pre segs = MRet s' [] es /\
-    decode HS handle rl h (pre ++ concat segs) = PRes (m_h s') (m_mode s') (m_buf s') es.
+    run_meta HS handle rl pol budget h pre segs = MRet s' [] es /\
+    decode HS handle rl pol h (pre ++ concat segs) = PRes (m_h s') (m_mode s') (m_buf s') es.
 Proof. exact ProofsH.meta_machine_segmentation_independent. Qed.
 Print Assumptions meta_machine_segmentation_independent.
 
@@ -209,9 +211,9 @@ Print Assumptions meta_machine_segmentation_independent.
    buffer rest.  That behaviour is tied to the code by the correspondence only (cases with xr= and
    `w` events, plain and encrypted, every PeerConnection<> role). *)
 Theorem machine_write_events_partial :
-  forall (HS : Type) (handle : HS -> msg -> HS * verdict) (rl : role) (reply : HS -> bool),
+  forall (HS : Type) (handle : HS -> msg -> HS * verdict) (rl : role) (pol : policy) (reply : HS -> bool),
   (forall h, reply h = false) ->
   forall (f : nat) (h : HS) (pend : bool) (m : rmode) (l : list N),
-  feedb HS handle rl reply f h pend m l = lift HS pend (feed HS handle rl f h m l).
+  feedb HS handle rl pol reply f h pend m l = lift HS pend (feed HS handle rl pol f h m l).
 Proof. exact ProofsI.feedb_no_reply. Qed.
 Print Assumptions machine_write_events_partial.
